@@ -77,9 +77,11 @@ func NewPatternRouter(pool grpcadapter.ClientPool, opts PatternRouterOpts) *Patt
 func (pr *PatternRouter) RouteHTTP(r *http.Request) (grpcadapter.ClientConn, HTTPRoute, error) {
 	// Try to follow the same steps as in https://github.com/grpc-ecosystem/grpc-gateway/blob/main/runtime/mux.go#L328 (ServeMux.ServeHTTP).
 	// Specifically, use RawPath for pattern matching, since it will be properly decoded by the pattern itself.
+	// When RawPath is empty, Path holds the already decoded path, so its default encoding is used instead
+	// to avoid decoding percent-escapes (e.g. %25) twice.
 	path := r.URL.RawPath
 	if path == "" {
-		path = r.URL.Path
+		path = r.URL.EscapedPath()
 	}
 
 	if !strings.HasPrefix(path, "/") {
